@@ -3,6 +3,7 @@ import Rtcm.Lemmas.Decode
 import Rtcm.Props.Base
 import Rtcm.Props.C06
 import Rtcm.Lemmas.Layout
+import Rtcm.Pinned.Fields
 /-
   C03 — every data field decodes to the value its bits encode, for all message types.
 
@@ -193,6 +194,41 @@ theorem C03_parse_iff_layout (id : Ident) (label : Nat) (d : List Item) (bs : By
     exact ⟨vals, cells, h1, h2⟩
   · rintro ⟨vals, cells, h1, h2⟩
     exact (C03_layout_roundtrip id label d vals _ h1).2 _ h2
+
+/-- how a table type reads its bits, for comparison with the pinned standard kinds -/
+def kindOf : FType → Option Pinned.Kind
+  | .uint | .bit => some .unsigned
+  | .int => some .twos
+  | .snt => some .signmag
+  | _ => none
+
+/-- one pinned entry holds in a table: a field of that name exists, reads its bits that way, has
+    that width and (where pinned) that resolution -/
+def pinHolds (T : Tables) (p : Label × Pinned.Kind × Nat × Option Res) : Bool :=
+  match T.fields.find? (fun f => f.name = p.1) with
+  | some f => kindOf f.ty = some p.2.1 && f.width = p.2.2.1 &&
+      (match p.2.2.2 with | none => true | some r => f.res = r)
+  | none => false
+
+/-- **The data-field table reads the pinned fields the way the standards do** (131 fields of
+    RTCM 10403.3 / IGS SSR v1: unsigned, two's complement or — GLONASS ephemeris only —
+    sign-magnitude; width; resolution where pinned).  One-directional: what is pinned must be so. -/
+theorem C03_field_kinds_pinned : (Pinned.fieldKinds.all (pinHolds T)) = true := by decide +kernel
+
+/-- consequently the reading theorems above apply with the standard's kind: e.g. a pinned
+    sign-magnitude field is decoded by `C03_reading_signmag`'s formula -/
+theorem C03_pinned_kind_is_table_kind (p : Label × Pinned.Kind × Nat × Option Res)
+    (hp : p ∈ Pinned.fieldKinds) :
+    ∃ f ∈ T.fields, f.name = p.1 ∧ kindOf f.ty = some p.2.1 ∧ f.width = p.2.2.1 := by
+  have h := List.all_eq_true.mp C03_field_kinds_pinned p hp
+  unfold pinHolds at h
+  cases hf : T.fields.find? (fun f => f.name = p.1) with
+  | none => simp [hf] at h
+  | some f =>
+    simp only [hf, Bool.and_eq_true, decide_eq_true_eq] at h
+    have hm := List.mem_of_find?_eq_some hf
+    have hn := List.find?_some hf
+    exact ⟨f, hm, by simpa using hn, h.1.1, h.1.2⟩
 
 /-- non-vacuity: a GPS MSM7 with 2 satellites, 2 signals, 4 cells (45 raw values, 565 bits) lays
     out, all values are consumed, and the identity hypothesis of the message-level theorem holds -/
